@@ -12,6 +12,7 @@
 //   init p <dims csv>/<batch> <ints>   Parameter::init(shape, values, device)
 //   initc p <dims csv>/<batch> <k>     Parameter::init(shape, Constant(k), device)
 //   load p <missing|garbage|truncated> Parameter::load of a bad file
+//   loadhex p <hex bytes>              Parameter::load of a file with exactly these bytes
 //   grad p <ints csv>                  overwrite the gradient (size must match)
 //   opt o <sgd|momentum|adagrad|rmsprop|adadelta|adam>
 //   add o p                            Optimizer::add
@@ -128,6 +129,17 @@ static void action(const std::vector<std::string> &w) {
       std::string data((std::istreambuf_iterator<char>(in)), std::istreambuf_iterator<char>());
       std::ofstream f(path, std::ios::binary);
       f << data.substr(0, data.size() - 5);
+    }
+    P(w[1]).load(path, true, *g_dev);
+    return;
+  }
+  if (op == "loadhex" && w.size() == 3) {
+    // bytes given as hex are written to a file and loaded with statistics
+    std::string path = g_tmp + "/hex.bin";
+    {
+      std::ofstream f(path, std::ios::binary);
+      const std::string &h = w[2];
+      for (std::size_t i = 0; i + 1 < h.size(); i += 2) f.put(static_cast<char>(std::strtoul(h.substr(i, 2).c_str(), nullptr, 16)));
     }
     P(w[1]).load(path, true, *g_dev);
     return;
